@@ -26,6 +26,9 @@ type EnvScenario struct {
 	Layout   Layout      `json:"layout"`
 	Tree     *N          `json:"tree"`
 	Env      *EnvData    `json:"env"`
+	// Expect: result directive (AsInt64 / AsFloat64); "" = none. The program is then a
+	// member access whose static type is int64 / float64 and whose value may be nil.
+	Expect string `json:"expect,omitempty"`
 	Faults   []CallFault `json:"faults"`                // each one is executed as its own single-fault run
 	Source   string      `json:"source_text,omitempty"` // informational; regenerated from Tree
 }
@@ -42,7 +45,36 @@ func compileOpts(sc *EnvScenario, sample interface{}) []expr.Option {
 	if !sc.Optimize {
 		opts = append(opts, expr.Optimize(false))
 	}
+	switch sc.Expect {
+	case "int64":
+		opts = append(opts, expr.AsInt64())
+	case "float64":
+		opts = append(opts, expr.AsFloat64())
+	}
 	return opts
+}
+
+// castExpect applies the result directive to the reference value: the result is
+// converted to int64 / float64; a value that is not a number fails.
+func castExpect(expect string, v interface{}, n *N) (interface{}, *EvalError) {
+	if expect == "" {
+		return v, nil
+	}
+	var f float64
+	switch x := v.(type) {
+	case int:
+		f = float64(x)
+	case int64:
+		f = float64(x)
+	case float64:
+		f = x
+	default:
+		return nil, &EvalError{Node: n, Msg: fmt.Sprintf("cannot convert %T to %s", v, expect)}
+	}
+	if expect == "int64" {
+		return int64(f), nil
+	}
+	return f, nil
 }
 
 // execResult is one execution of the system under test and of the reference.
@@ -77,6 +109,9 @@ func execBoth(sc *EnvScenario, src string, prog *vm.Program, machine *vm.VM, fau
 	e2 := BuildEnv(w2, sc.Env)
 	ref := NewRef(e2)
 	r.refV, r.refErr = ref.Eval(sc.Tree)
+	if r.refErr == nil {
+		r.refV, r.refErr = castExpect(sc.Expect, r.refV, sc.Tree)
+	}
 	r.refJ = w2.Journal
 	r.allocs = ref.Allocs
 	r.tooBig = ref.TooBig
